@@ -7,9 +7,12 @@
    that was STORED in the default quota's PodCache when the pod was added (PodInfo.pod is never
    refreshed by OnPodUpdate). [ps_dobj] is that stored object. No proofs in this file. *)
 From Coq Require Import List ZArith Bool.
-From Verif Require Import Lib.Vec2 C01.Model C01.Spec.
+From Verif Require Import Lib.VecN C01.Model C01.Spec.
 Import ListNotations.
 Open Scope Z_scope.
+
+Section WithDim.
+Context {D : Dim}.
 
 Record ppod := mkPP { pp_pod : pod; pp_label : Z }.
 
@@ -140,3 +143,5 @@ Definition refill (alive : list (Z * ppod)) (s : state) : state :=
 Definition pstate_code (s : pstate) : Z := state_code (refill (ps_alive s) (ps_core s)).
 
 Definition prun (s : pstate) (h : list pop) : pstate := fold_left pstep h s.
+
+End WithDim.
